@@ -31,7 +31,10 @@ CUR = {'ctx': None, 'case': None}
 def shards(tier, seed):
     per = 220 if tier == 'quick' else 9000
     budget = 45 if tier == 'quick' else 540
-    return [{'kind': 'random', 'count': per, 'budget_s': budget, 'max_g': 10 if tier == 'quick' else 22} for _ in range(16)]
+    _out = [{'kind': 'random', 'count': per, 'budget_s': budget, 'max_g': 10 if tier == 'quick' else 22} for _ in range(16)]
+    if tier == 'thorough':
+        _out.append({'kind': 'suite', 'select': ['tests/cirbo/sat', 'tests/cirbo/minimization'], 'budget_s': 900})
+    return _out
 
 
 def _cone(net, roots):
@@ -288,6 +291,11 @@ def gen_case(rng, spec):
 
 def run_shard(spec, ctx):
     install(ctx)
+    if spec.get('kind') == 'suite':
+        from vt import suite
+        import sys
+        suite.run(sys.modules[__name__], ctx, select=spec.get('select'))
+        return
     for i in range(spec['count']):
         if ctx.out_of_time():
             ctx.count('stopped_on_budget')
